@@ -31,6 +31,7 @@ type World struct {
 	modsets map[*ssa.Function]*ModSet
 	harmlessExtern map[string]bool
 	UsedMirror []string
+	NoInline map[string]bool
 }
 
 func shortPkgPath(path string) string {
@@ -96,11 +97,12 @@ func LoadWorld(repoDir string) (*World, error) {
 	prog, spkgs := ssautil.AllPackages(pkgs, ssa.GlobalDebug|ssa.InstantiateGenerics)
 	prog.Build()
 	w := &World{RepoDir: repoDir, Prog: prog, Pkgs: pkgs, SPkgs: map[string]*ssa.Package{}, Funcs: map[string]*ssa.Function{},
-		AllFn: map[*ssa.Function]bool{}, Specs: NewSpecSet(), loops: map[*ssa.Function]*LoopInfo{}, harmlessExtern: map[string]bool{}}
+		AllFn: map[*ssa.Function]bool{}, Specs: NewSpecSet(), loops: map[*ssa.Function]*LoopInfo{}, harmlessExtern: map[string]bool{}, NoInline: map[string]bool{}}
 	if len(pkgs) > 0 {
 		w.Fset = pkgs[0].Fset
 	}
-	for _, sp := range spkgs {
+	_ = spkgs
+	for _, sp := range prog.AllPackages() {
 		if sp != nil {
 			w.SPkgs[sp.Pkg.Path()] = sp
 		}
